@@ -536,6 +536,9 @@ pub struct GenParams {
     /// every event carries a tuple-literal payload
     #[serde(default)]
     pub tuple_events: bool,
+    /// most events emit a `let`-bound local, the locals share two names
+    #[serde(default)]
+    pub local_heavy: bool,
 }
 
 impl GenParams {
@@ -556,6 +559,7 @@ impl GenParams {
                 channels: true,
                 tame_contexts: true,
                 tuple_events: false,
+                local_heavy: false,
             };
         }
         GenParams {
@@ -571,6 +575,7 @@ impl GenParams {
             channels: r.chance(1, 2),
             tame_contexts: r.chance(2, 3),
             tuple_events: r.chance(1, 12),
+            local_heavy: false,
         }
     }
 }
@@ -885,8 +890,11 @@ pub fn gen_model(r: &mut Rng, p: &GenParams) -> Model {
         while events_left > 0 && (r.chance(1, 2) || events_left >= remaining_cmds) && emits.len() < 2 {
             events_left -= 1;
             let named_params: Vec<&Param> = params.iter().filter(|p| matches!(p.ty, Ty::Named(_))).collect();
-            const LOCALS: &[&str] = &["status", "payload", "info"];
-            let payload = match r.below(8) {
+            const ALL_LOCALS: &[&str] = &["status", "payload", "info"];
+            #[allow(non_snake_case)]
+            let LOCALS: &[&str] = if p.local_heavy { &ALL_LOCALS[..2] } else { ALL_LOCALS };
+            let roll = if p.local_heavy && r.chance(3, 4) { 5 + r.below(3) } else { r.below(8) };
+            let payload = match roll {
                 5 if !type_names.is_empty() => Payload::Local { var: r.pick(LOCALS).to_string(), init: LocalInit::Lit(r.pick(&type_names).clone()) },
                 6 if !type_names.is_empty() => Payload::Local { var: r.pick(LOCALS).to_string(), init: LocalInit::New(r.pick(&type_names).clone()) },
                 5..=7 => Payload::Local { var: r.pick(LOCALS).to_string(), init: LocalInit::Call },
